@@ -54,6 +54,8 @@ func c07Client(o *Out, rig *srvRig, r *rand.Rand, id *int, cfg srvOpts) {
 			c.text = fmt.Sprintf("E%d:", c.id) + errTexts[r.Intn(len(errTexts))]
 			if sameLen {
 				c.text = fmt.Sprintf("E%07d:%s", c.id, strings.Repeat(string(rune('a'+i)), 24))
+			} else if r.Intn(6) == 0 {
+				c.text = "" // an error whose message is empty is still that request's service error
 			}
 			calls[i] = c
 		}
